@@ -345,6 +345,7 @@ func (r *FnRun) checkReturn(st *State, fr *frame, res []*V) {
 		r.obls = append(r.obls, &Obligation{Name: fmt.Sprintf("%s/canary:return%d", r.relName, ord), Func: r.relName, Pkg: r.fn.Pkg.Pkg.Path(), Kind: "canary", Label: "return",
 			Query: &Query{Asserts: st.pcList(), Goal: "false"}, ClauseKey: r.relName + "/canary:return", Expect: "sat", PathDesc: strings.Join(st.trail, " > ")})
 	}
+	r.errFlow(st, res, ord)
 	if r.fc == nil {
 		return
 	}
@@ -457,7 +458,7 @@ func globMatch(pat, s string) bool {
 	return ok
 }
 
-var disciplineKinds = map[string]bool{"guarded": true, "lock": true, "callback-free": true, "immutable": true, "blocking": true}
+var disciplineKinds = map[string]bool{"guarded": true, "lock": true, "callback-free": true, "immutable": true, "blocking": true, "errflow": true}
 
 func (p *PropSpec) belongs(id string, pkgName string, o *Obligation) bool {
 	if o.Kind == "canary" {
@@ -599,4 +600,71 @@ func (e *Engine) typeLevelObligations() []*Obligation {
 		}
 	}
 	return out
+}
+
+
+// errFlow: zero-annotation sweep. A function whose last result is an error and which returns nil must not have
+// seen a direct call fail whose error result it consumes somewhere (an error assigned to a shadowed variable,
+// overwritten in a loop or dropped on one branch is exactly that). Only instances that discharge on the unchanged
+// tree enter the baseline; the others (errors ignored on purpose) are never reported.
+func (r *FnRun) errFlow(st *State, res []*V, ord int) {
+	sig := r.fn.Signature
+	n := sig.Results().Len()
+	if n == 0 || types.TypeString(sig.Results().At(n-1).Type(), nil) != "error" || len(res) != n || res[n-1].K != KIface {
+		return
+	}
+	nilErr := sEq(res[n-1].Tag, "0")
+	for _, name := range r.failKeys() {
+		if r.errDiscarded(name) {
+			continue
+		}
+		cur, ok := st.ghost["fail:"+name]
+		if !ok {
+			continue // never called on this path
+		}
+		r.oblige(st, "errflow", name, nil, sImp(nilErr, sEq(cur, "0")), r.posOf(r.fn.Blocks[0].Instrs[0]), fmt.Sprintf("ret%d", ord))
+	}
+}
+
+// errDiscarded: some call site of the callee in this function throws its error result away syntactically.
+func (r *FnRun) errDiscarded(name string) bool {
+	if r.errDisc == nil {
+		r.errDisc = map[string]bool{}
+		for _, b := range r.fn.Blocks {
+			for _, ins := range b.Instrs {
+				call, ok := ins.(*ssa.Call)
+				if !ok {
+					continue
+				}
+				sig := call.Call.Signature()
+				n := sig.Results().Len()
+				if n == 0 || types.TypeString(sig.Results().At(n-1).Type(), nil) != "error" {
+					continue
+				}
+				cn := r.calleeName(&call.Call)
+				used := false
+				if refs := call.Referrers(); refs != nil {
+					for _, u := range *refs {
+						switch x := u.(type) {
+						case *ssa.DebugRef:
+						case *ssa.Extract:
+							if x.Index == n-1 {
+								if xr := x.Referrers(); xr != nil && len(*xr) > 0 {
+									used = true
+								}
+							}
+						default:
+							if n == 1 {
+								used = true
+							}
+						}
+					}
+				}
+				if !used {
+					r.errDisc[cn] = true
+				}
+			}
+		}
+	}
+	return r.errDisc[name]
 }
